@@ -46,6 +46,11 @@ type Store struct {
 		m map[string]*cachedSecret // :: secret name → active value
 		f map[string]Secret        // :: secret name → fetch function
 		w map[string][]watcher     // :: secret name → watchers
+
+		// flushFailed is set when the most recent attempt to flush the cache
+		// failed, so the cache may be older than the active set. The next poll
+		// retries the flush even if it has no new values to install.
+		flushFailed bool
 	}
 
 	ctx    context.Context    // governs the polling task and lookups
@@ -607,11 +612,16 @@ func (s *Store) run(ctx context.Context, interval time.Duration, done chan<- str
 // applyUpdates applies the specified updates to the secret values, and if a
 // cache is present flushes the data to the cache.
 func (s *Store) applyUpdates(updates map[string]*api.SecretValue) error {
-	if len(updates) == 0 {
-		return nil // nothing to do
-	}
 	s.active.Lock()
 	defer s.active.Unlock()
+	if len(updates) == 0 {
+		if s.active.flushFailed {
+			// Nothing changed in this poll, but an earlier flush failed and the
+			// cache is behind the active set: bring it up to date now.
+			return s.flushCacheLocked()
+		}
+		return nil // nothing to do
+	}
 	for name, sv := range updates {
 		if sv == nil {
 			// This is an undeclared secret that has expired.
@@ -653,8 +663,10 @@ func (s *Store) flushCacheLocked() error {
 	if err != nil {
 		return fmt.Errorf("encoding state: %w", err)
 	} else if err := s.cache.Write(data); err != nil {
+		s.active.flushFailed = true
 		return fmt.Errorf("updating cache: %w", err)
 	}
+	s.active.flushFailed = false
 	return nil
 }
 
